@@ -47,12 +47,15 @@ pub struct UdpSocket { _p: core::marker::PhantomData<()> }
 impl UdpSocket {
     pub uninterp spec fn dest(&self) -> SocketAddr;
     pub uninterp spec fn sent(&self) -> Seq<Seq<u8>>;
+    /// every datagram handed to `send`, whether or not the transport accepted it
+    pub uninterp spec fn attempts(&self) -> Seq<Seq<u8>>;
     pub uninterp spec fn recvd(&self) -> nat;
     pub uninterp spec fn script(&self) -> Seq<Seq<u8>>;
     pub open spec fn pending(&self) -> nat { self.script().len() }
     #[verifier::external_body]
     pub fn new(address: &SocketAddr, timeout_settings: &Option<TimeoutSettings>) -> (r: GDResult<Self>)
         ensures r is Ok ==> r->Ok_0.dest() == *address && r->Ok_0.sent() == Seq::<Seq<u8>>::empty() && r->Ok_0.recvd() == 0
+                         && r->Ok_0.attempts() == Seq::<Seq<u8>>::empty()
                          && r->Ok_0.script() == server_script(*address),
                 r is Err ==> r->Err_0.kind == SocketBind || r->Err_0.kind == SocketConnect
     { unimplemented!() }
@@ -61,6 +64,7 @@ impl UdpSocket {
         ensures
             final(self).dest() == old(self).dest(),
             final(self).recvd() == old(self).recvd(), final(self).script() == old(self).script(),
+            final(self).attempts() == old(self).attempts().push(data@),
             r is Ok ==> final(self).sent() == old(self).sent().push(data@),
             r is Err ==> final(self).sent() == old(self).sent() && r->Err_0.kind == PacketSend,
     { unimplemented!() }
@@ -68,7 +72,7 @@ impl UdpSocket {
     pub fn receive(&mut self, size: Option<usize>) -> (r: GDResult<Vec<u8>>)
         ensures
             final(self).dest() == old(self).dest(),
-            final(self).sent() == old(self).sent(),
+            final(self).sent() == old(self).sent(), final(self).attempts() == old(self).attempts(),
             r is Ok ==> old(self).script().len() > 0
                      && r->Ok_0@ == truncated(old(self).script()[0], size)
                      && final(self).script() == old(self).script().drop_first()
@@ -82,12 +86,15 @@ pub struct TcpSocket { _p: core::marker::PhantomData<()> }
 impl TcpSocket {
     pub uninterp spec fn dest(&self) -> SocketAddr;
     pub uninterp spec fn sent(&self) -> Seq<Seq<u8>>;
+    /// every datagram handed to `send`, whether or not the transport accepted it
+    pub uninterp spec fn attempts(&self) -> Seq<Seq<u8>>;
     pub uninterp spec fn recvd(&self) -> nat;
     pub uninterp spec fn script(&self) -> Seq<Seq<u8>>;
     pub open spec fn pending(&self) -> nat { self.script().len() }
     #[verifier::external_body]
     pub fn new(address: &SocketAddr, timeout_settings: &Option<TimeoutSettings>) -> (r: GDResult<Self>)
         ensures r is Ok ==> r->Ok_0.dest() == *address && r->Ok_0.sent() == Seq::<Seq<u8>>::empty() && r->Ok_0.recvd() == 0
+                         && r->Ok_0.attempts() == Seq::<Seq<u8>>::empty()
                          && r->Ok_0.script() == server_script(*address),
                 r is Err ==> r->Err_0.kind == SocketBind || r->Err_0.kind == SocketConnect
     { unimplemented!() }
@@ -96,6 +103,7 @@ impl TcpSocket {
         ensures
             final(self).dest() == old(self).dest(),
             final(self).recvd() == old(self).recvd(), final(self).script() == old(self).script(),
+            final(self).attempts() == old(self).attempts().push(data@),
             r is Ok ==> final(self).sent() == old(self).sent().push(data@),
             r is Err ==> final(self).sent() == old(self).sent() && r->Err_0.kind == PacketSend,
     { unimplemented!() }
@@ -104,7 +112,7 @@ impl TcpSocket {
     pub fn receive(&mut self, size: Option<usize>) -> (r: GDResult<Vec<u8>>)
         ensures
             final(self).dest() == old(self).dest(),
-            final(self).sent() == old(self).sent(),
+            final(self).sent() == old(self).sent(), final(self).attempts() == old(self).attempts(),
             r is Ok ==> old(self).script().len() > 0 && r->Ok_0@ == old(self).script()[0]
                      && final(self).script() == old(self).script().drop_first()
                      && final(self).recvd() == old(self).recvd() + 1,
